@@ -61,7 +61,11 @@ class FunctionInfo:
 
     @property
     def is_property(self) -> bool:
-        return "property" in self.decorators
+        return any(d in ("property", "cached_property", "functools.cached_property") for d in self.decorators)
+
+    @property
+    def is_cached_property(self) -> bool:
+        return any(d in ("cached_property", "functools.cached_property") or d.endswith("lru_cache") or d.endswith(".cache") or d == "cache" for d in self.decorators)
 
     @property
     def is_classmethod(self) -> bool:
